@@ -1,4 +1,4 @@
-package main
+package hlib
 
 import "github.com/skycoin/skycoin/src/util/logging"
 
